@@ -144,8 +144,18 @@ def classify_failed_check(desc):
 def _run_group(cmd, cwd, env, timeout):
     """Run in its own process group so that a timeout kills our cbmc children only."""
     import signal
+    # memory guard (DESIGN 2.4): an address-space limit inherited by every cbmc child; a harness that
+    # hits it is reported by Kani as out of memory => undecided, never an alarm
+    mem_gb = int(os.environ.get('VERIF_MEM_GB', '24'))
+
+    def _limit():
+        import resource
+        try:
+            resource.setrlimit(resource.RLIMIT_AS, (mem_gb << 30, mem_gb << 30))
+        except (ValueError, OSError):
+            pass
     p = subprocess.Popen(cmd, cwd=cwd, env=env, stdout=subprocess.PIPE, stderr=subprocess.STDOUT, text=True,
-                         start_new_session=True)
+                         start_new_session=True, preexec_fn=_limit)
     try:
         out, _ = p.communicate(timeout=timeout)
         return p.returncode, out
